@@ -333,6 +333,16 @@ def handle : Handler := fun m j =>
       return obj [("outcome", outcomeJ r), ("defined", before.isSome),
                   ("same_after", (before.map sgraphJ) == a), ("equal", a == b)]
     | _ => return obj [("outcome", outcomeJ r), ("defined", before.isSome)]
+  | "clone.verdict" => some do
+    -- the scope walker on the source heap (C13_clone_succeeds / C13_clone_raises_iff)
+    let w0 ← (← getArr j "world").mapM asCell
+    let fuel := (j.getObjValAs? Nat "fuel").toOption.getD 64
+    match cloneVerdict fuel (← getBool j "allow") w0 (← getNat j "g") with
+    | .ok A => return obj [("v", "ok"), ("bound", natsJ A.bound.reverse)]
+    | .err (.raised why) => return obj [("v", "raised"), ("why", why)]
+    | .err (.unsupported why) => return obj [("v", "unsupported"), ("why", why)]
+    | .err .fuel => return obj [("v", "fuel")]
+    | .irregular why => return obj [("v", "irregular"), ("why", why)]
   | "clone.functionalize" => some do
     -- `functionalize(pass)(model)` with the pass given as the edit history it performs
     let w0 ← (← getArr j "world").mapM asCell
@@ -342,7 +352,14 @@ def handle : Handler := fun m j =>
     let (r, w1) := match allBase edits2 with
       | some edits => functionalize fuel (fun _ _ => edits) mo w0
       | none => functionalize2 fuel (fun _ _ => edits2) mo w0
-    return obj [("outcome", outcomeJ (r.map some)), ("world", Json.arr (w1.map cellJ).toArray)]
+    -- for the harness only: did the model decline one of the edits (`unsupported`)?
+    let declined := match run (modelClone fuel mo) w0 with
+      | (.ok _, wc) => (runHistory2 edits2 wc).1.any fun x => match x with
+        | .error (.unsupported _) => true
+        | _ => false
+      | _ => false
+    return obj [("outcome", outcomeJ (r.map some)), ("world", Json.arr (w1.map cellJ).toArray),
+                ("declined", declined)]
   | "clone.history" => some do
     -- a clone step followed by `runHistory` on a list of edits
     let w0 ← (← getArr j "world").mapM asCell
